@@ -120,12 +120,19 @@ class Actor:
                     c = copy.deepcopy(self.s)
                     del c
                 elif op == "P":
-                    try:
-                        pickle.dumps(self.s)
-                        if self.s.samples is not None:
-                            pickle.dumps(self.s.samples)
-                    except Exception:
-                        pass  # refusing to pickle is fine; touching the file is not
+                    import dill
+                    import gc
+
+                    for lib in (pickle, dill):       # multiprocess, which hmclab uses for its chains, pickles with dill
+                        for obj in (self.s, self.s.samples):
+                            if obj is None:
+                                continue
+                            try:
+                                clone = lib.loads(lib.dumps(obj))
+                                del clone
+                            except Exception:
+                                pass  # refusing to pickle is fine; touching the file is not
+                    gc.collect()
                 elif op == "L":
                     if sha(self.path) is not None:
                         try:
